@@ -234,15 +234,32 @@ impl Check for Analyses {
         }
         if case.via_cli {
             if let Some(bin) = cli::anthem_bin() {
+                // the program as a user would write it: a header comment, one rule per line with a
+                // trailing comment, blank lines; read from standard input and from a file
+                let mut commented = String::from("% a program with comments\n\n");
+                for line in text.lines() {
+                    commented.push_str(line);
+                    commented.push_str("  % rule\n\n");
+                }
+                let dir = cli::scratch_dir("c11");
+                let file = dir.join("program.lp");
+                std::fs::write(&file, &commented).unwrap();
+                let path = file.to_string_lossy().to_string();
                 for (prop, expected) in [("tightness", t_ref), ("regularity", r_ref)] {
-                    let r = cli::run(&bin, &["analyze", "--property", prop], Some(&text));
-                    if r.code != Some(0) || r.stdout.trim() != expected.to_string() {
-                        return Outcome::fail(
-                            format!("cli-{prop}"),
-                            format!("C11: `anthem analyze --property {prop}` printed {:?} (exit {:?}), expected {expected}\n  program: {text}", r.stdout, r.code),
-                        );
+                    for (channel, r) in [
+                        ("stdin", cli::run(&bin, &["analyze", "--property", prop], Some(&commented))),
+                        ("file", cli::run(&bin, &["analyze", "--property", prop, &path], None)),
+                    ] {
+                        if r.code != Some(0) || r.stdout.trim() != expected.to_string() {
+                            let _ = std::fs::remove_dir_all(&dir);
+                            return Outcome::fail(
+                                format!("cli-{prop}"),
+                                format!("C11: `anthem analyze --property {prop}` ({channel}) printed {:?} (exit {:?}), expected {expected}\n  program text:\n{commented}", r.stdout, r.code),
+                            );
+                        }
                     }
                 }
+                let _ = std::fs::remove_dir_all(&dir);
             }
         }
         Outcome::pass(edges > 0, hash64(&text))
